@@ -167,7 +167,39 @@ func headerCountRule(c *Ctx, rule string, writeTo *ssa.Function) {
 			}
 		}
 	}
-	c.Check(okStore, rule, "header track count <- len(Tracks)", p.Pos(writeTo.Pos()), "the count written into the header is len of the track slice", "the header's track count is not derived from len(Tracks)")
+	// the refresh must happen on every call: it dominates everything that serialises (no path to a module call avoids it)
+	if okStore {
+		var theStore ssa.Instruction
+		for _, b := range writeTo.Blocks {
+			for _, in := range b.Instrs {
+				if st, ok := in.(*ssa.Store); ok {
+					if fv := fieldVar(st.Addr); fv != nil && fv.Name() == "numTracks" {
+						theStore = st
+					}
+				}
+			}
+		}
+		for _, call := range calls(writeTo) {
+			f := call.Common().StaticCallee()
+			if f == nil || !InModule(f) || theStore == nil {
+				continue
+			}
+			if canReachFromEntryAvoiding(writeTo, call, map[ssa.Instruction]bool{theStore: true}) {
+				okStore = false
+			}
+		}
+		// and the count must not be read before it is refreshed
+		for _, b := range writeTo.Blocks {
+			for _, in := range b.Instrs {
+				if l, ok := in.(*ssa.UnOp); ok && l.Op == token.MUL {
+					if fv := fieldVar(l.X); fv != nil && fv.Name() == "numTracks" && theStore != nil && !instrDominates(theStore, l) {
+						okStore = false
+					}
+				}
+			}
+		}
+	}
+	c.Check(okStore, rule, "header track count <- len(Tracks)", p.Pos(writeTo.Pos()), "the count written into the header is len of the track slice, refreshed unconditionally on every call", "the header's track count is not (always) refreshed from len(Tracks): a stale count from an earlier write or read can be written")
 	if tracksField == nil {
 		return
 	}
